@@ -373,35 +373,64 @@ class Sess:
         return st
 
     def do_exec(self, c, args):
+        """EXEC.  A queued SELECT is executed at EXEC time (server.rs handle_exec): the commands queued after it run in
+        the selected database and the selection stays.  For the model this is EXEC of the first segment followed —
+        only if EXEC executed — by `select` and `cmd` events of the same connection (it has left MULTI by then)."""
         cli = self.cl[c]
         queued = self.queue[c] if self.intx[c] else []
-        plans = []
-        allkeys = []
+        plans = []          # per queued command: (classification | None | ("select", d), database it runs in)
+        allkeys = []        # (db, key) observed
+        db = self.db[c]
         for qa in queued:
+            if up(qa[0]) == "SELECT":
+                try:
+                    d = int(qa[1])
+                except (ValueError, IndexError):
+                    d = -1
+                plans.append((("select", d), db))
+                if 0 <= d < 16:
+                    db = d
+                continue
             cl = classify(self.inner(qa))
-            plans.append(cl)
+            plans.append((cl, db))
             if cl:
                 for k in self.keys_of(cl[0]):
-                    if k in allkeys:
+                    if (db, k) in allkeys:
                         raise InternalError("queued commands of one transaction must use disjoint keys (observation is per key): %r" % (queued,))
-                    allkeys.append(k)
-        db = self.db[c]
-        before = {k: self.dump(db, k) for k in allkeys}
+                    allkeys.append((db, k))
+        before = {dk: self.dump(dk[0], dk[1]) for dk in allkeys}
         r = cli.cmd(*args)
         now = self.now()
-        after = {k: self.dump(db, k) for k in allkeys}
+        after = {dk: self.dump(dk[0], dk[1]) for dk in allkeys}
         impl = self.canon(r)
-        toks = []
+        segments = [[]]      # token lists; a new segment starts after each effective SELECT
+        selects = []
         if r[0] == "a" and len(r[1]) == len(queued):
-            for qa, cl, el in zip(queued, plans, r[1]):
+            for (cl, d0), el in zip(plans, r[1]):
+                if cl and cl[0] == "select":
+                    if el == ("s", b"OK"):
+                        selects.append(cl[1])
+                        segments.append([])
+                    continue
                 if cl:
-                    toks += self.tokens(cl[0], cl[1](el, before), before, after, now)
+                    bf = {k: before[(d0, k)] for k in self.keys_of(cl[0])}
+                    af = {k: after[(d0, k)] for k in self.keys_of(cl[0])}
+                    segments[-1] += self.tokens(cl[0], cl[1](el, bf), bf, af, now)
+        toks = segments[0]
         m = self.ask("exec %d %d %s" % (c, now, " ".join(toks)))
         code, verdict = m.rsplit(" ", 1)
+        if impl.startswith("array") and code.startswith("array"):
+            for d, seg in zip(selects, segments[1:]):
+                a1 = self.ask("select %d %d %d" % (c, now, d))
+                a2 = self.ask("cmd %d %d %s" % (c, now, " ".join(seg)))
+                if (a1, a2) != ("ok", "ok"):
+                    raise InternalError("model refused the continuation of an EXEC after a queued SELECT: %r %r" % (a1, a2))
+                toks = toks + ["select:%d" % d] + seg
+                self.db[c] = d
         st = self.record("exec", c, args, impl, m)
         st["ops"] = toks
         st["queued"] = [" ".join(x.decode("latin-1") for x in qa)[:80] for qa in queued]
-        executed_nothing = all(self.same(before[k], after[k]) for k in allkeys)
+        executed_nothing = all(self.same(before[dk], after[dk]) for dk in allkeys)
         st["executed_nothing"] = executed_nothing
         self.execs.append(st)
         if self.intx[c]:
@@ -693,6 +722,25 @@ def scenarios(s, wk, same_k, diff_k, rep):
     finish_tx(s, "x")          # nil
     s.do(A, ["WATCH", wk])
     finish_tx(s, "y")          # nothing changed since the second WATCH: executes
+    # --- a queued SELECT is executed at EXEC time: the commands after it run in the selected database
+    d1 = (s.base_db + 6) % 16
+    begin("change-through-queued-select")
+    s.do(A, ["SELECT", str(d1)])
+    s.do(A, ["WATCH", wk])                      # db d1
+    s.do(B, ["MULTI"])
+    s.do(B, ["SELECT", str(d1)])
+    s.do(B, ["SET", wk, "2"])                   # lands in db d1
+    s.do(B, ["EXEC"])
+    finish_tx(s, "q")                           # nil
+    begin("own-queued-select")
+    s.do(A, ["WATCH", wk])
+    s.do(A, ["MULTI"])
+    s.do(A, ["SELECT", str(d1)])
+    s.do(A, ["SET", PROBE, "own"])
+    s.do(A, ["EXEC"])                           # executes; A now lives in db d1 and watches nothing
+    s.do(A, ["WATCH", wk])                      # db d1
+    s.do(B, ["SET", wk, "2"])                   # base db: another key
+    finish_tx(s, "o")                           # executes
     # --- re-WATCH keeps the first baseline (Redis ignores a WATCH of an already watched key)
     begin("rewatch-after-change")
     s.do(B, ["SET", wk, "1"])
@@ -977,7 +1025,10 @@ def main(tier, seed):
         "a connection that is closed while it holds watches is not modelled (its registrations leak like those of EXEC/DISCARD, which only raises watcher counts)",
         "the abort decision is compared per EXEC; the individual replies of the queued commands belong to C07",
         "single command thread (DESIGN section 1): a command and the EXEC check never interleave; the sweeper is paused except in the sweeper scenario, where the model is told of the deletion after it was observed",
-        "time: deadlines used for expiry are 150 ms with >= 150 ms of slack on both sides; all other TTLs are >= 500 s",
+        "time: the expiry scenarios use a 150 ms deadline (500 ms / 2 s on a loaded machine: an attempt whose key is already dead when WATCH has been answered is abandoned unjudged) and EXEC is sent >= 170 ms after it; all other TTLs are >= 500 s",
+        "watched key names are valid UTF-8 (a script mangles other bytes of ARGV — a C12 finding — so the EVAL path would address another key)",
+        "an EXEC whose queue contains SELECT is mirrored as exec + select + cmd events (the watched keys are checked before anything runs)",
+        "SETRANGE with an empty value is not in the matrix (it returns before marking; the model's mark discipline for setrange is `whenever the key exists`)",
     ]
     ok, log, errs = proof_phase(rep, families=["watch"])
     build_server()
